@@ -8,8 +8,28 @@ pub const THRESHOLDS: [usize; 17] = [
     0, 1, 3, 4, 5, 9, 10, 11, 49, 50, 51, 127, 128, 129, 255, 256, 257,
 ];
 
+static SMALL: std::sync::atomic::AtomicBool = std::sync::atomic::AtomicBool::new(false);
+
+/// Cap input sizes (used when the process runs under an interpreter such as Miri).
+pub fn set_small(on: bool) {
+    SMALL.store(on, std::sync::atomic::Ordering::Relaxed);
+}
+pub fn small() -> bool {
+    SMALL.load(std::sync::atomic::Ordering::Relaxed)
+}
+
 /// Input length mixture biased to the boundaries the code branches on.
 pub fn byte_length(rng: &mut Rng, allow_big: bool) -> usize {
+    if small() {
+        return match rng.below(10) {
+            0..=2 => rng.below(65) as usize,
+            3..=5 => {
+                let t = *rng.pick(&THRESHOLDS);
+                (t as i64 + rng.range(0, 4) as i64 - 2).max(0) as usize
+            }
+            _ => rng.range(60, 500) as usize,
+        };
+    }
     match rng.below(100) {
         0..=19 => rng.below(65) as usize,
         20..=34 => {
